@@ -1,9 +1,40 @@
-(* C04 — Block decoding implements the LZ4 block format exactly (placeholder header; theorems added below) *)
-From LZ4V Require Import Base BlockFormat BlockFormatProofs.
+(* C04 — Block decoding implements the LZ4 block format exactly, including dictionaries.
+   Only property theorems here, each closed by a lemma proved elsewhere. *)
+From LZ4V Require Import Base BlockFormat BlockFormatProofs DecodePortable DecodeAsm BlockTheoremsSpec BlockTheorems.
 
-(* the format specification decodes what its own encoder produces, for every well-formed parse,
-   every dictionary and every capacity: spec_decode (encode p) = meaning of p *)
+(* both decoder models return exactly what the format defines — bytes AND error/success — for every
+   source, every destination length, every dictionary *)
+Theorem C04_asm : exact_stmt decode_asm.            Proof. exact asm_exact. Qed.
+Print Assumptions C04_asm.
+Theorem C04_portable : exact_stmt decode_portable.  Proof. exact portable_exact. Qed.
+Print Assumptions C04_portable.
+(* every well-formed block whose decoded size fits is decoded to the bytes the format defines,
+   offsets before the start of the output resolved against the end of the dictionary *)
+Theorem C04_wellformed_asm : wellformed_stmt decode_asm.            Proof. exact asm_wellformed. Qed.
+Print Assumptions C04_wellformed_asm.
+Theorem C04_wellformed_portable : wellformed_stmt decode_portable.  Proof. exact portable_wellformed. Qed.
+Print Assumptions C04_wellformed_portable.
+(* the result never depends on the destination's prior contents *)
+Theorem C04_independent_asm : independent_stmt decode_asm.            Proof. exact asm_independent. Qed.
+Print Assumptions C04_independent_asm.
+Theorem C04_independent_portable : independent_stmt decode_portable.  Proof. exact portable_independent'. Qed.
+Print Assumptions C04_independent_portable.
+(* error clauses (format level; they reach both decoders through C04_asm / C04_portable) *)
+Theorem C04_err_zero_offset : err_zero_offset_stmt.  Proof. exact err_zero_offset. Qed.
+Print Assumptions C04_err_zero_offset.
+Theorem C04_err_before_dict : err_before_dict_stmt.  Proof. exact err_before_dict. Qed.
+Print Assumptions C04_err_before_dict.
+Theorem C04_err_overflow : err_overflow_stmt.        Proof. exact err_overflow. Qed.
+Print Assumptions C04_err_overflow.
+Theorem C04_err_truncated : err_truncated_stmt.      Proof. exact err_truncated. Qed.
+Print Assumptions C04_err_truncated.
+(* the specification decodes its own encoder's output: the format is consistent *)
 Theorem C04_spec_roundtrip : forall p dict cap, wf_parse p ->
   spec_decode (encode p) dict cap = option_map (@rev Z) (expand_parse (rev dict) cap [] p).
 Proof. exact spec_decode_encode. Qed.
 Print Assumptions C04_spec_roundtrip.
+(* non-vacuity: a two-sequence block with an overlapping match and a dictionary reference *)
+Example C04_nonvacuous :
+  obs (decode_asm (encode ([mkseq [97] 1 4; mkseq [66] 9 5], [101; 110; 100])) (repeat 0 14%nat) [1;2;3])
+  = Some (14, [97;97;97;97;97;66;1;2;3;97;97;101;110;100]).
+Proof. vm_compute. reflexivity. Qed.
